@@ -9,8 +9,8 @@ use sv_parser_parser::verif_hooks as hooks;
 
 pub fn cases(tier: Tier) -> u64 {
     match tier {
-        Tier::Quick => 3200,
-        Tier::Thorough => 100000,
+        Tier::Quick => 24000,
+        Tier::Thorough => 500000,
         Tier::Tiny => 8,
     }
 }
